@@ -78,6 +78,8 @@ def _build(w, env, t):
         return w.tyobj(t[1])
     if k == "list":
         return [_build(w, env, x) for x in t[1:]]
+    if k == "dict":
+        return dict((_build(w, env, kk), _build(w, env, vv)) for kk, vv in t[1:])
     return w.app(k, *[_build(w, env, x) for x in t[1:]])
 
 
@@ -114,6 +116,8 @@ def _show(t):
         return str(t[1])
     if t[0] == "list":
         return "[%s]" % ", ".join(_show(x) for x in t[1:])
+    if t[0] == "dict":
+        return "{%s}" % ", ".join("%s: %s" % (_show(k), _show(v)) for k, v in t[1:])
     return "%s(%s)" % (t[0], ", ".join(_show(x) for x in t[1:]))
 
 
@@ -399,6 +403,12 @@ def copy_pairs():
         # same number of constructions, same root id, different size / atoms / symbols
         (("And", "a", ("Or", "b", ("Not", "c"))), ("Or", ("Not", "a"), ("Not", "b"))),
         (("LT", ("Plus", "x", ("Times", "y", ("Int", P(2)))), "x"), ("Equals", ("BVAdd", "u", "v"), ("BVNot", ("BVNeg", "u")))),
+        # bound variables that do not occur in the body (they live in the payload only), nested re-binding
+        (("ForAll", ("list", "x", "y"), ("LT", "x", ("Int", P(0)))), ("Exists", ("list", "c"), ("And", "a", "b"))),
+        (("ForAll", ("list", "y", "r"), ("Exists", ("list", "r"), ("LE", "y", "y"))), ("Exists", ("list", "e1", "x"), ("LT", "x", "y"))),
+        # array values whose default / stored values are terms
+        (("Equals", "m", ("Array", ("type", INT), ("Int", P(0)), ("dict", (("Int", P(1)), "x"), (("Int", P(2)), ("Plus", "x", "y"))))),
+         ("Equals", "m", ("Array", ("type", INT), "y", ("dict", (("Int", P(3)), "x"))))),
     ]
 
 
@@ -421,7 +431,12 @@ def _struct(w, n, seen=None):
         ps = str(w.sort_of_tyobj(p))
     else:
         ps = repr(p)
-    return (op, ps) + tuple(_struct(w, a) for a in w.nargs(n))
+    kids = tuple(_struct(w, a) for a in w.nargs(n))
+    if op == "ARRAY_VALUE":
+        # the explicit entries are a finite map: FormulaManager.Array orders them by object identity, which is a
+        # canonical order inside one process but not part of the structure
+        kids = (kids[0],) + tuple(sorted(zip(kids[1::2], kids[2::2]), key=repr))
+    return (op, ps) + kids
 
 
 def _nodes(w, n, out=None):
